@@ -34,7 +34,7 @@ CHECKS = {
  "C08": ("symbolic execution (z3 NRA) of the metric bodies for each axiom claimed in the fixed axiom table; sum-type metrics decided on their coordinate kernel with the decomposition checked against the code; floating-point robustness by the standard rounding model with replay of every candidate on the real njit code",
          "lengths 1..3 (quick) / 1..4 (thorough), kernels lifted up to 4/8; triangle n<=2/3; undecided queries are listed, never counted", "4 C08"),
  "C07": ("symbolic execution (z3) of all 47 metrics and of fit/predict of the four models on caller-owned symbolic arrays with a write log in the numpy model; QF_FP (Float64) query decides whether a logged write can change the stored value; candidates replayed on the real package (bytes before/after)",
-         "metrics: vectors of length 1..2 (quick) / 1..3 (thorough); models: 3 training samples + 1 query, one feature, decorated and undecorated metric", "4 C07"),
+         "metrics: vectors of length 1..2 (quick) / 1..3 (thorough); models: 3 training samples + 1 query, one feature, decorated and undecorated metric; refit histories (fit, [predict,] fit[, predict]) on 2-3 (quick) / 2-4 (thorough) samples vs a never-used object", "4 C07"),
  "C10": ("bounded symbolic execution (z3) of the whole pipeline pre_compute_distance -> file -> _read_distances -> fit/predict next to the on-the-fly pipeline inside one symbolic path, on an asymmetric symbolic distance table with every injective choice of train/test rows",
          "datasets of <= 4 rows (quick) / <= 5 (thorough); supervised, semi-supervised, unsupervised; .txt and .csv; get_distances raw and normalised", "4 C10"),
  "C18": ("bounded symbolic execution (z3) of split / split_with_index / merge with the RNG as a nondeterministic contract stub, and of the converter -> loader -> parser -> Subgraph(from_file) pipeline on a symbolic typed binary file through a virtual file system; exists-a-bijection oracle",
